@@ -78,7 +78,12 @@ type vfC09Case struct {
 	// the last reopen happens in a separate process (thorough tier only)
 	SeparateProcess bool         `json:"separate_process,omitempty"`
 	ChildAdds       []vfStoreDoc `json:"child_adds,omitempty"` // documents the other process adds (explicit ids)
+	// name of the store directory below the scratch directory ("" = the scratch directory itself):
+	// "the same directory" is any directory, also one whose name means something to a pattern matcher
+	DirName string `json:"dir_name,omitempty"`
 }
+
+var vfOddDirNames = []string{"run[2024]", "a b", "st*r", "q?x", "x{1,2}", "d\u00e9j\u00e0 vu", "%d", "back\\slash", "[a-", "deep/er/still", ".hidden", "trailing.bin.gz", "hybrid_000001.bin.gz"}
 
 func vfGenStoreConf(rt *rapid.T) (vfStoreConf, *vfVecGen) {
 	c := vfStoreConf{}
@@ -149,6 +154,11 @@ func vfC09Gen(rt *rapid.T) vfC09Case {
 					// created), followed by a Flush after the fault has gone
 					return vfStoreOp{Op: "blocked_flush", Count: rapid.IntRange(0, 3).Draw(rt, "blocked_file")}
 				}
+				if rapid.IntRange(0, 7).Draw(rt, "io_fault_at_close") == 0 {
+					// the session's Close meets the same kind of fault: it may only return nil if what was
+					// pending is on disk all the same
+					return vfStoreOp{Op: "blocked_close", Count: rapid.IntRange(0, 3).Draw(rt, "blocked_file")}
+				}
 				return vfStoreOp{Op: "flush"}
 			}
 			if bulk && rapid.IntRange(0, 3).Draw(rt, "bulk_op") == 0 {
@@ -167,6 +177,9 @@ func vfC09Gen(rt *rapid.T) vfC09Case {
 	nth := 19
 	if vfTierThorough() {
 		nth = 5
+	}
+	if rapid.IntRange(0, 5).Draw(rt, "odd_directory_name") == 0 {
+		c.DirName = rapid.SampledFrom(vfOddDirNames).Draw(rt, "dir_name")
 	}
 	c.SeparateProcess = rapid.IntRange(0, nth).Draw(rt, "separate_process") == 0
 	if c.SeparateProcess {
@@ -482,6 +495,10 @@ func vfC09Run(c vfC09Case, ctx *vfCtx) *vfViolation {
 		return vfFail("mkdir: %v", err)
 	}
 	defer os.RemoveAll(dir)
+	if c.DirName != "" {
+		dir = filepath.Join(dir, filepath.FromSlash(c.DirName))
+		ctx.Class("store_directory_with_an_unusual_name")
+	}
 	ctx.Class("vec_kind=" + c.Conf.VecKind)
 	ctx.ClassIf(c.Conf.FlushThr < 1<<30, "background_flush_worker_active")
 	durable := map[uint32]*vfStoreDoc{}
@@ -534,6 +551,7 @@ func vfC09Run(c vfC09Case, ctx *vfCtx) *vfViolation {
 			return v
 		}
 		pending := map[uint32]*vfStoreDoc{}
+		blockClose := 0 // > 0: the session's Close meets an injected I/O fault (file kind blockClose-1)
 		for oi, op := range ops {
 			switch op.Op {
 			case "add":
@@ -606,6 +624,8 @@ func vfC09Run(c vfC09Case, ctx *vfCtx) *vfViolation {
 					}
 					pending = map[uint32]*vfStoreDoc{}
 				}
+			case "blocked_close":
+				blockClose = op.Count%4 + 1
 			case "flush":
 				if err := st.Flush(); err != nil {
 					continue // not acknowledged
@@ -633,7 +653,31 @@ func vfC09Run(c vfC09Case, ctx *vfCtx) *vfViolation {
 			st.Close()
 			return vfFail("session %d: vector query with default parameters before Close: %v", si, err)
 		}
-		if err := st.Close(); err == nil {
+		var closeBlockers []string
+		if blockClose > 0 {
+			names, _ := os.ReadDir(dir)
+			var have []string
+			for _, e := range names {
+				have = append(have, e.Name())
+			}
+			next := vfMaxSegmentID(have)
+			kindName := []string{"vector", "text", "metadata", "hybrid"}[blockClose-1]
+			for k := uint64(1); k <= 12; k++ {
+				b := filepath.Join(dir, fmt.Sprintf("%s_%06d.bin.gz", kindName, next+k))
+				if os.Mkdir(b, 0o755) == nil {
+					closeBlockers = append(closeBlockers, b)
+				}
+			}
+		}
+		cerr := st.Close()
+		for _, b := range closeBlockers {
+			os.Remove(b)
+		}
+		if blockClose > 0 {
+			ctx.ClassIf(cerr != nil, "close_failed_on_an_injected_io_fault")
+			ctx.ClassIf(cerr == nil, "close_returned_nil_under_an_injected_io_fault")
+		}
+		if cerr == nil {
 			for id, d := range pending {
 				durable[id] = d
 			}
